@@ -20,3 +20,4 @@ pub fn fixed_random_state() -> std::hash::RandomState {
 pub fn fmt_format_unreachable(_args: core::fmt::Arguments<'_>) -> String {
     panic!("error path reached: a format!() call was executed")
 }
+
